@@ -982,7 +982,7 @@ def run_multi(name, terms, checkers, per_file=25, timeout=1500):
     files = []
     for k in range(0, max(1, (len(terms) + per_file - 1) // per_file)):
         chunk = terms[k * per_file:(k + 1) * per_file]
-        fn = os.path.join(cdir, f"{name}_{k}.v")
+        fn = os.path.join(cdir, f"{name}_p{os.getpid()}_{k}.v")
         with open(fn, "w") as f:
             f.write(PRE + "\nDefinition cases := [\n" + ";\n".join(chunk) + "\n].\n")
             for c in checkers:
